@@ -295,6 +295,45 @@ func (c *Ctx) ruleVerdict(a *protoAnchors) {
 			"the collector's error is "+t.String()+"; expected getError(the returned status, ctx.Err(), g.successThreshold, g.successThresholdSinks) in that order")
 	}
 	r.Floor(rule, 1)
+	// "Send returns an error if and only if ... were reported": Send itself adds no error of its
+	// own — whatever it returns is the collector's verdict, except for an event type that has
+	// no graph at all. A fail-fast return (a done context, say) reports an error although the
+	// thresholds may be met by zero completes.
+	okSrc, nPaths := true, 0
+	for _, pa := range c.enum(rule, a.send, PathOpts{}) {
+		if _, isRet := pa.End.(*ssa.Return); !isRet {
+			continue
+		}
+		rv := pa.RetVals()
+		if len(rv) != 2 {
+			continue
+		}
+		nPaths++
+		var proc *ssa.Call
+		for _, s := range pa.CallsOn() {
+			if ci, ok := s.In.(*ssa.Call); ok && ci.Call.StaticCallee() == C && s.Depth == 0 {
+				proc = ci
+			}
+		}
+		ptb := pa.TermsAt(pa.LastStep())
+		if proc != nil {
+			if ptb.Of(rv[1]).String() != "Extract[1]("+ptb.Of(proc).String()+")" && okSrc {
+				okSrc = false
+				r.Bad(rule, "(*Broker).Send:error-source", p.InstrPos(pa.End), "Send returns "+shortStr(ptb.Of(rv[1]).String(), 120)+" as its error instead of the collector's verdict")
+			}
+			continue
+		}
+		pol, found := hasAtom(pa, func(at Atom) bool {
+			return at.Op == "true" && at.L.Op == "Extract" && at.L.Name == "1" && at.L.Args[0].Op == "Lookup"
+		})
+		if !(found && !pol) && okSrc {
+			okSrc = false
+			r.Bad(rule, "(*Broker).Send:error-source", p.InstrPos(pa.End), "Send returns without a verdict of the collector on a path that is not the unknown event type: the error (or its absence) is not derived from the reported completes and the thresholds ("+shortStr(p.PathSummary(pa), 200)+")")
+		}
+	}
+	if okSrc {
+		r.Check(nPaths >= 2, rule, "(*Broker).Send:error-source", p.Pos(a.send.Pos()), fmt.Sprintf("%d returning paths: the collector's verdict, or the unknown event type", nPaths), "fewer than 2 returning paths of Send")
+	}
 }
 
 // ruleGetErrorTable: P5 on Status.getError.
